@@ -41,17 +41,35 @@ def run(ctx, facts):
     ctx.rule("N1", "retain passes Some(observed pointer of the same entry); retain_force passes None; both pass no new value", floor=2)
     ctx.rule("N2", "replace_node removes only on the true edge of a pointer-identity test of the value loaded under the validated lock", floor=2)
     ctx.rule("N3", "retain / retain_force call the predicate under no lock", floor=2)
-    rn = facts.body("map::HashMap::replace_node")
+    # the compare-and-remove routine(s): bodies with an `observed value` parameter (Option<Shared<V>>); recognised by type so that a
+    # rename or a wrapper/inner split does not blind the rule
+    def obs_param(b):
+        for k in range(1, b.nargs + 1):
+            if b.ty(k)["s"].startswith("std::option::Option<reclaim::Shared<"):
+                return k
+        return None
+
+    def new_param(b):
+        for k in range(1, b.nargs + 1):
+            if b.ty(k)["s"] == "std::option::Option<V>":
+                return k
+        return None
+    obs_bodies = [b for b in facts.bodies if b.kind != "Closure" and obs_param(b)]
+    if not obs_bodies:
+        ctx.fail_closed("N: no function with an observed-value parameter (Option<Shared<V>>) found")
+        return
+    obs_ids = {b.id: b for b in obs_bodies}
     # ---- N1
     for name, want in (("map::HashMap::retain", "Some"), ("map::HashMap::retain_force", "None")):
         b = facts.body(name)
         fl = flow(b)
-        calls = [c for c in b.calls if c.resolved == rn.id and not b.is_cleanup(c.b)]
+        calls = [c for c in b.calls if c.resolved in obs_ids and not b.is_cleanup(c.b)]
         if not calls:
-            ctx.inst("N1", b, "removal through replace_node", b.span, False, "%s does not remove through replace_node" % name)
+            ctx.fail_closed("N1: %s does not call a compare-and-remove routine (a function with an observed-value parameter)" % name)
         for c in calls:
-            newv = agg_variant(b, op_root(c.args[2]))
-            obs = agg_variant(b, op_root(c.args[3]))
+            tb = obs_ids[c.resolved]
+            newv = agg_variant(b, op_root(c.args[new_param(tb) - 1])) if new_param(tb) else [("None", None)]
+            obs = agg_variant(b, op_root(c.args[obs_param(tb) - 1]))
             ok = [v for v, _ in newv] == ["None"] and [v for v, _ in obs] == [want]
             why = "new_value=%s observed_value=%s" % ([v for v, _ in newv], [v for v, _ in obs])
             if ok and want == "Some":
@@ -80,11 +98,28 @@ def run(ctx, facts):
                  "%d predicate call(s), no lock region in this body" % len(preds) if preds and not bad else
                  ("predicate is called at %s while a lock is held" % bad[0].span if bad else "no predicate call found"))
     # ---- N2
+    inner = [b for b in obs_bodies if [v for v in validated_regions(b) if bin_lock_region(v.region)]]
+    # wrappers must hand their observation through unchanged
+    for w in obs_bodies:
+        if w in inner:
+            continue
+        for c in w.calls:
+            if c.resolved in obs_ids and not w.is_cleanup(c.b):
+                tb = obs_ids[c.resolved]
+                al = op_root(c.args[obs_param(tb) - 1])
+                ok = al is not None and flow(w).derives_from_arg(al, obs_param(w)) and not agg_variant(w, al)
+                ctx.inst("N2", w, "observation passed through", c.span, ok, "wrapper forwards its observed value unchanged" if ok else
+                         "wrapper %s does not forward the observed value it was given" % strip_generics(w.id))
+    if not inner:
+        ctx.fail_closed("N2: no compare-and-remove routine with bin-lock regions found")
+        return
+    rn = inner[0]
+    OBS = obs_param(rn)
     fl = flow(rn)
     muts = mutations(rn)
     vs = [v for v in validated_regions(rn) if bin_lock_region(v.region)]
     if len(vs) < 2:
-        ctx.fail_closed("N2: expected two validated bin-lock regions in replace_node, found %d" % len(vs))
+        ctx.fail_closed("N2: expected two validated bin-lock regions in %s, found %d" % (strip_generics(rn.id), len(vs)))
     for v in vs:
         r = v.region
         found = None
@@ -100,7 +135,7 @@ def run(ctx, facts):
             for mc in mroots:
                 if mc is None or not callee_str(mc).endswith("Option::map"):
                     continue
-                obs_from_param = fl.derives_from_arg(op_root(mc.args[0]), 4)
+                obs_from_param = fl.derives_from_arg(op_root(mc.args[0]), OBS)
                 cl = op_root(mc.args[1])
                 ch = rn.ty(cl)["head"] if cl is not None else ""
                 cb = facts.by_id.get(ch[len("closure:"):]) if ch.startswith("closure:") else None
